@@ -444,6 +444,13 @@ DEFOP(patch_apply) {
     struct Drop { World &w; ~Drop() { w.drop_pending(); } } dp{w};
     w.touch(s);
     w.mark_utils(s);
+    if (doc_has_refs) {
+        // the trees this document refers to take part in the call: what the call does to them is judged with it
+        std::vector<MVal *> all; mv_collect(doc, all);
+        for (MVal *x : all)
+            if (x->refkind != R_NONE && x->target)
+                for (int i = 0; i < NSLOTS; i++) if (w.slots[i] && w.slots[i] == mv_root(x->target)) { w.touch(i); w.mark_utils(i); }
+    }
     cJSON *patch = nullptr;
     if (((uint64_t)st.A(0) / 13) % 3 == 0) {
         patch = build_patch_via_api(w.pending_patch, (uint64_t)st.A(0));
